@@ -129,3 +129,20 @@ def relabel(events, rng):
                 open_choice[key] = chosen
         out.append(mk(e.timestamp, chosen, e.func_qualifier, e.data, e.tid))
     return out, table
+
+
+def permuted(events_lists, rng):
+    """The same captures under a supplied table that gives the ids in use to OTHER names in use (a rotation of the ids
+    among the decodable names that occur): what a release that renumbers its calls looks like next to the bundled
+    table in one process.  Returns ([events lists], table)."""
+    bundled = bundled_codes()
+    used = sorted({e.eventid for evs in events_lists for e in evs if e.eventid in bundled and e.eventid not in REAL_FAULT_IDS})
+    if len(used) < 2:
+        return events_lists, dict(bundled)
+    shift = rng.randrange(1, len(used))
+    pi = {old: used[(i + shift) % len(used)] for i, old in enumerate(used)}
+    table = dict(bundled)
+    for old, new in pi.items():
+        table[new] = bundled[old]
+    out = [[mk(e.timestamp, pi.get(e.eventid, e.eventid), e.func_qualifier, e.data, e.tid) for e in evs] for evs in events_lists]
+    return out, table
